@@ -5,6 +5,10 @@ from wormhole.errors import WormholeError
 from .env import URL
 
 
+class AppBug(Exception):
+    pass
+
+
 class WApp:
     """Drives one wormhole through the Deferred or the delegate API and records what the
     application sees.  ev = [(step, kind, value)], kinds:
@@ -55,6 +59,14 @@ class WApp:
     def _ev(self, kind, value):
         self.ev.append((self.world.step, kind, value))
         self.order.append(kind)
+        bug = getattr(self, "raise_on", None)
+        if bug and self.api == "delegate" and kind == bug[0]:
+            bug[1] -= 1
+            if bug[1] <= 0:
+                # an application bug: the delegate's callback raises (once)
+                self.raise_on = None
+                self.raised = getattr(self, "raised", 0) + 1
+                raise AppBug("the delegate's %s callback raised" % kind)
 
     def chain_gets_from_key_callback(self, which=("verifier", "versions", "code")):
         """an application that asks for the later events from inside the callback of an earlier one (the
